@@ -38,6 +38,8 @@ type hybridOpts struct {
 	nops       int
 	allowReuse bool
 	allowBad   bool
+	nearTie    bool // many documents with one text and different vectors, searched with a fusion whose vector
+	// weight is tiny: fused scores that differ far below single precision are still ordered by score
 }
 
 func lnTableFor(ix *comet.BM25SearchIndex, texts []string) map[uint64]uint64 {
@@ -71,6 +73,9 @@ func encLn(c *Case, lnT map[uint64]uint64) {
 func runHybridHistory(r *rand.Rand, o hybridOpts, t *Trace) *Case {
 	hasV, hasT, hasM := r.Intn(6) != 0, r.Intn(5) != 0, r.Intn(5) != 0
 	kind := []int{0, 0, 0, 1, 1, 1, 2, 3}[r.Intn(8)]
+	if o.nearTie {
+		hasV, hasT, kind = true, true, 0
+	}
 	p, ntrain := rndParams(r, kind, false)
 	if kind == 1 && r.Intn(2) == 0 {
 		// enough cells that "one probe" and the sub-index's own default (sqrt(nlist)) differ
@@ -138,6 +143,7 @@ func runHybridHistory(r *rand.Rand, o hybridOpts, t *Trace) *Case {
 	if hasV && kind != 0 && r.Intn(8) != 0 {
 		train()
 	}
+	twinText := ""     // the text of the last document added with one
 	var heldRun func() // a search builder kept across the history
 	for step := 0; step < o.nops; step++ {
 		if heldRun != nil && r.Intn(5) == 0 {
@@ -164,6 +170,14 @@ func runHybridHistory(r *rand.Rand, o hybridOpts, t *Trace) *Case {
 			text := ""
 			if r.Intn(4) != 0 {
 				text = bmText(r)
+				if twinText != "" && r.Intn(4) == 0 {
+					text = twinText // the very text of the previous document: equal text scores, different vectors
+					t.Stat("hyb.add_twin_text")
+				}
+				twinText = text
+				if o.nearTie && r.Intn(4) != 0 {
+					text = "alpha beta"
+				}
 			}
 			var md map[string]interface{}
 			if r.Intn(4) != 0 {
@@ -352,6 +366,9 @@ func runHybridHistory(r *rand.Rand, o hybridOpts, t *Trace) *Case {
 				for i := 0; i < 1+r.Intn(2); i++ {
 					tqs = append(tqs, bmText(r))
 				}
+				if twinText != "" && r.Intn(4) == 0 {
+					tqs = []string{twinText}
+				}
 			}
 			var fs []comet.Filter
 			var gs []*comet.FilterGroup
@@ -393,8 +410,23 @@ func runHybridHistory(r *rand.Rand, o hybridOpts, t *Trace) *Case {
 			if r.Intn(2) == 0 {
 				cfg = &comet.FusionConfig{VectorWeight: float64(r.Intn(5)) * 0.5, TextWeight: r.Float64() * 2, K: float64(1 + r.Intn(80))}
 				if r.Intn(5) == 0 {
+					// a weight so small that fused scores of documents with equal text scores differ far below
+					// single precision: they are still different scores, and ordered as such
+					cfg.VectorWeight, cfg.TextWeight = []float64{1e-9, 1e-12, 1e-7}[r.Intn(3)], 1
+				}
+				if r.Intn(5) == 0 {
 					cfg.TextWeight = 0 // boundary: a modality switched off by weight still contributes its ids
 				}
+			}
+			if o.nearTie && r.Intn(3) != 0 {
+				fk = 0
+				cfg = &comet.FusionConfig{VectorWeight: []float64{1e-9, 1e-12, 1e-7}[r.Intn(3)], TextWeight: 1, K: 60}
+				tqs = []string{"alpha beta"}
+				if len(vq) == 0 {
+					vq = histVec(r, p.dim, style)
+				}
+				thr, cutoff = 0, -1
+				t.Stat("hyb.search_near_tie_fusion")
 			}
 			fu, _ := comet.NewFusion(fkinds[fk], cfg)
 			s := h.NewSearch()
@@ -594,7 +626,7 @@ func genC05(r *rand.Rand, t *Trace, thorough bool) {
 		n = 2500
 	}
 	for it := 0; it < n; it++ {
-		t.Emit(runHybridHistory(r, hybridOpts{nops: 10 + r.Intn(35)}, t))
+		t.Emit(runHybridHistory(r, hybridOpts{nops: 10 + r.Intn(35), nearTie: it%10 == 9}, t))
 	}
 	for it := 0; it < 6+n/25; it++ {
 		runHybridHNSWDiff(r, t)
